@@ -122,6 +122,12 @@ def gen_ops(rng, tier):
         nsym = sum(bits[1:])
         vals = rng.sample(range(maxsym + 1), nsym)
         tables.append((int(isdc), int(ll), bits, vals))
+    # the largest alphabets: 254, 255 and exactly 256 symbols (the bound of huffval[])
+    for ns in (254, 255, 256, 256, 256):
+        bits = rand_tree_bits(rng, ns)
+        tables.append((0, 0, bits, rng.sample(range(256), sum(bits[1:]))))
+    b89 = [0] * 17; b89[8] = 255; b89[9] = 1
+    tables.append((0, 0, b89, list(range(256))))
     for (dc, ll, b, v) in tables:
         ops.append("cderive %d %d %s" % (dc, ll, tbl_str(b, v)))
         ops.append("dderive %d %d %s" % (dc, ll, tbl_str(b, v)))
